@@ -14,6 +14,14 @@ initialX, minX, maxX, tolerance, convergenceLimit float64, maxIterations int) (x
 	if minDelta > 0 || maxDelta < 0 {
 		panic("Invalid range")
 	}
+	// An end of the bracket may already be a root to within the tolerance:
+	// return it rather than a trial point that merely meets the tolerance.
+	if math.Abs(minDelta) < tolerance || math.Abs(maxDelta) < tolerance {
+		if math.Abs(minDelta) <= math.Abs(maxDelta) {
+			return minX, minDelta
+		}
+		return maxX, maxDelta
+	}
 	for iteration := 0; iteration < maxIterations; iteration++ {
 		var trialXs []float64
 		var trialDeltas []float64
